@@ -922,6 +922,10 @@ class APIConnection:
             # connection must not be dispatched anymore
             return
         try:
+            if msg_type_proto < 1:
+                # 0 is not a valid message type and must not wrap around
+                # to the last entry of the table
+                raise IndexError(msg_type_proto)
             # MESSAGE_NUMBER_TO_PROTO is 0-indexed
             # but the message type is 1-indexed
             klass = MESSAGE_NUMBER_TO_PROTO[msg_type_proto - 1]
